@@ -135,6 +135,16 @@ fn as_plain(t: &Ty) -> Ty {
 }
 
 pub fn check_c09(c: &DedupCase, acc: &mut Acc, record: bool) -> Verdict {
+    // one case in seven is preceded, on this thread, by a stream that registers deduplicated strings (two from the
+    // alphabet, one of its own) and then FAILS (a character the format cannot hold): numbering restarts regardless
+    if hash_json(&c.items) % 7 == 0 {
+        let junk = Ty::Tuple(vec![Ty::Dedup, Ty::Dedup, Ty::Dedup, Ty::Char]);
+        let jv = Val::Tuple(vec![Val::str(SMALL_ALPHABET[1]), Val::str(SMALL_ALPHABET[2]), Val::str("left over"), Val::Char(0x1F600)]);
+        let failed = vcat::encode(&junk, &jv).0.is_err();
+        if record && failed {
+            acc.bump("cases_preceded_by_a_failing_stream_with_deduplicated_strings", 1);
+        }
+    }
     let (enc, written) = vcat::encode_many_written(&c.items);
     let bytes = match enc {
         Ok(b) => b,
